@@ -636,7 +636,7 @@ Section Split.
 
   Lemma asset_branch_split fuel addr extra it ot fee s (o : O) :
     asset_branch orc fuel addr extra it ot fee s o =
-    bindM (asset_branch_pre orc fuel addr extra it ot fee) (finish_change (O:=O)) s o.
+    bindM (asset_branch_pre orc fuel addr extra it ot fee) (finish_change orc) s o.
   Proof.
     unfold asset_branch, asset_branch_pre.
     do 6 (rewrite bindM_assoc; apply bindM_ext; intros).
@@ -645,7 +645,7 @@ Section Split.
 
   Lemma add_change_split fuel addr extra s (o : O) :
     add_change orc fuel addr extra s o =
-    bindM (add_change_pre orc fuel addr extra) (finish_change (O:=O)) s o.
+    bindM (add_change_pre orc fuel addr extra) (finish_change orc) s o.
   Proof.
     unfold add_change, add_change_pre.
     rewrite bindM_assoc; apply bindM_ext; intros sg s1 o1.
@@ -674,16 +674,17 @@ Section Theorems.
   Hypothesis Hfee : fee_exact e orc.
 
   Lemma top_up_last_spec t u s s' (o o' : O) :
-    top_up_last t s o = mkOut (Ok u) s' o' -> exists outs', s' = set_s_outputs outs' s.
+    top_up_last orc t s o = mkOut (Ok u) s' o' -> exists outs', s' = set_s_outputs outs' s.
   Proof.
     unfold top_up_last. intros H. minv H as sg s1 o1 H1 H2. apply get_inv in H1 as (-> & -> & ->).
     destruct (rev (s_outputs s)) as [|last before]; [apply lift_inv in H2 as (? & _); discriminate|].
     minv H2 as amount s1 o1 H3 H4. apply lift_inv in H3 as (_ & -> & ->).
-    apply put_inv in H4 as (-> & _). eauto.
+    minv H4 as u2 s1 o2 H5 H6. apply put_inv in H5 as (-> & _).
+    apply (pres_output_admissible orc) in H6. subst s'. eauto.
   Qed.
 
   Lemma finish_change_spec bg b s s' (o o' : O) :
-    finish_change bg s o = mkOut (Ok b) s' o' ->
+    finish_change orc bg s o = mkOut (Ok b) s' o' ->
     b = fst bg /\ (snd bg = None -> s' = s) /\ exists outs', s' = set_s_outputs outs' s.
   Proof.
     unfold finish_change. destruct (snd bg) as [t|].
@@ -746,22 +747,26 @@ Section Build.
 
   Lemma validate_fee_spec u s s' (o o' : O) :
     validate_fee orc s o = mkOut (Ok u) s' o' ->
-    s' = s /\ exists F, get_fee_if_set s = Some F /\ need e s F <= F.
+    s' = s /\ exists F, get_fee_if_set s = Some F /\ need e s F <= F /\ policy_ok (s_fee_request s) F.
   Proof.
     unfold validate_fee. intros H. minv H as sg s1 o1 H1 H2. apply get_inv in H1 as (-> & -> & ->).
     destruct (get_fee_if_set s) as [F|] eqn:EF; [|apply lift_inv in H2 as (? & _); discriminate].
+    match type of H2 with (if negb ?h then _ else _) _ _ = _ => destruct h eqn:Eh end; cbn [negb] in H2;
+      [|apply lift_inv in H2 as (? & _); discriminate].
     minv H2 as mf s1 o1 H3 H4. apply (askF_inv orc e Hfee) in H3 as (Hm & ->).
     destruct (N.ltb_spec F mf); [apply lift_inv in H4 as (? & _); discriminate|].
     apply ret_inv in H4 as (_ & -> & _). split; auto.
-    apply min_fee_model_ok in Hm as (f & Hf & ->). rewrite EF in Hf. inversion Hf; subst. eauto.
+    apply min_fee_model_ok in Hm as (f & Hf & ->). rewrite EF in Hf. inversion Hf; subst.
+    exists f. repeat split; auto. unfold policy_ok.
+    destruct (s_fee_request s); auto; [apply N.leb_le in Eh | apply N.eqb_eq in Eh]; auto.
   Qed.
 
-  (* C06_validate *)
+  (* C06_validate / C06_policy_build *)
   Theorem build_tx_validates body s s' (o o' : O) :
     build_tx orc s o = mkOut (Ok body) s' o' ->
-    exists F, get_fee_if_set s = Some F /\ b_fee body = F /\ need e s F <= F.
+    exists F, get_fee_if_set s = Some F /\ b_fee body = F /\ need e s F <= F /\ policy_ok (s_fee_request s) F.
   Proof.
-    unfold build_tx. intros H. minv H as u s1 o1 H1 H2. apply validate_fee_spec in H1 as (-> & F & HF & Hn).
+    unfold build_tx. intros H. minv H as u s1 o1 H1 H2. apply validate_fee_spec in H1 as (-> & F & HF & Hn & Hp).
     minv H2 as sg s1 o2 H3 H4. apply get_inv in H3 as (-> & -> & ->).
     minv H4 as u2 s1 o3 H5 H6. apply lift_inv in H5 as (_ & -> & ->).
     unfold build in H6. minv H6 as sg s1 o4 H7 H8. apply get_inv in H7 as (-> & -> & ->).
@@ -773,18 +778,6 @@ Section Build.
     destruct big; [apply lift_inv in H12 as (? & _); discriminate|].
     apply ret_inv in H12 as (-> & -> & ->). exists F. repeat split; auto.
     unfold body_of; cbn [b_fee]. rewrite HF. reflexivity.
-  Qed.
-
-  (* the repaired build_tx: additionally the fee request is honoured by the built body *)
-  Theorem build_tx6_validates body s s' (o o' : O) :
-    build_tx6 orc s o = mkOut (Ok body) s' o' ->
-    exists F, get_fee_if_set s = Some F /\ b_fee body = F /\ need e s F <= F /\ policy_ok (s_fee_request s) F.
-  Proof.
-    unfold build_tx6. intros H. minv H as sg s1 o1 H1 H2. apply get_inv in H1 as (-> & -> & ->).
-    destruct (fee_request_honoured s) eqn:Eh; [|apply lift_inv in H2 as (? & _); discriminate].
-    apply build_tx_validates in H2 as (F & HF & Hb & Hn). exists F. repeat split; auto.
-    unfold fee_request_honoured in Eh. rewrite HF in Eh. unfold policy_ok.
-    destruct (s_fee_request s); auto; [apply N.leb_le in Eh | apply N.eqb_eq in Eh]; auto.
   Qed.
 
   Lemma catch_some {A} (m : @M O A) v s s' (o o' : O) :
@@ -998,17 +991,11 @@ Example policy_premises :
   out_res (add_change orc 10 1 0 s_nl tt) = Ok true.
 Proof. vm_compute. reflexivity. Qed.
 
-(* before /repo 0fc161c: set_fee AFTER add_change was ignored by build_tx (the old code = Change.build_tx):
-   the body carries the computed fee 165897, not the fixed 1000000 *)
+(* before /repo 0fc161c: set_fee AFTER add_change was ignored by build_tx: the body carries the computed fee 165897,
+   not the fixed 1000000; the repaired build_tx fails *)
 Theorem late_fee_request_legacy_refuted :
   let orc := size_oracle e_main 4310 5000 in
   let s1 := set_s_fee_request (FeeExactly 1000000) (out_st (add_change orc 10 1 0 s_tok tt)) in
-  (exists body, out_res (build_tx orc s1 tt) = Ok body /\ b_fee body = 165897) /\
-  out_res (build_tx6 orc s1 tt) = Err.
+  (exists body, out_res (build_tx_legacy orc s1 tt) = Ok body /\ b_fee body = 165897) /\
+  out_res (build_tx orc s1 tt) = Err.
 Proof. vm_compute. split; [eexists; split; reflexivity | reflexivity]. Qed.
-
-Example build6_premises :
-  let orc := size_oracle e_main 4310 5000 in
-  let r := add_change orc 10 1 0 s_tok tt in
-  exists body, out_res (build_tx6 orc (out_st r) tt) = Ok body /\ b_fee body = 165897.
-Proof. vm_compute. eexists. split; reflexivity. Qed.
